@@ -3,6 +3,9 @@ package checks
 import (
 	"fmt"
 
+	"github.com/vx-labs/mqtt-protocol/packet"
+	"github.com/vx-labs/wasp/v4/wasp/distributed"
+
 	"wv/fw"
 	"wv/kit"
 	"wv/model"
@@ -15,7 +18,7 @@ func init() {
 }
 
 func runC10(c *fw.Ctx) {
-	c.Rule = "seeded pairs of node histories: two nodes issue 10-50 real mutator calls (incl. bulk removals) while each gossip broadcast between them is delivered or lost forever with a per-scenario loss rate (0..100%); then LocalState/MergeRemoteState is exercised A->B, B->A, both ways and into a fresh node. A per-node reference LWW map (tombstones included) is maintained from the broadcast entries each node issued or received; after A->B the listing of B must equal the visible part of merge(ref(A), ref(B)); a fresh node must list exactly what A lists; after both directions A and B list the same. distinct = (scenario calls, loss pattern, exchange kind); non-trivial = the sender holds >=2 entries of one kind or a removal the receiver never saw"
+	c.Rule = "seeded pairs of node histories: two nodes issue 10-50 real mutator calls (incl. bulk removals) while each gossip broadcast between them is delivered or lost forever with a per-scenario loss rate (0..100%); then LocalState/MergeRemoteState is exercised A->B, B->A, both ways and into a fresh node. A per-node reference LWW map (tombstones included) is maintained from the broadcast entries each node issued or received; after A->B the listing of B must equal the visible part of merge(ref(A), ref(B)); a fresh node must list exactly what A lists; after both directions A and B list the same. Plus retained-message histories under clocks that advance only every 2-4 calls (the two nodes' clocks never coincide), partly lost gossip, exchange in both directions: both nodes list the same. distinct = (scenario calls, loss pattern, exchange kind); non-trivial = the sender holds >=2 entries of one kind or a removal the receiver never saw"
 	c.Assume("a node's own entries are taken from the broadcasts it queued (C09 establishes that they describe its local changes)")
 	c.Assume("timestamps distinct per key (scenarios with an exact tie on a key are counted and skipped)")
 	n := c.Pick(6000, 60000)
@@ -139,4 +142,93 @@ func runC10(c *fw.Ctx) {
 		}
 	}
 	c.Floor("scenarios_with_removal_never_gossiped", 20)
+	c10Stalled(c)
+}
+
+// c10Stalled: retained-message writes on two nodes whose clocks advance only every 2-4 calls
+// (coarse clocks), gossip partly lost, then a full-state exchange in both directions: both
+// nodes must list the same retained messages. The two clocks never produce the same value
+// (even / odd), so equal stamps on one key can only come from one node's own successive writes.
+func c10Stalled(c *fw.Ctx) {
+	n := c.Pick(3000, 40000)
+	for s := 0; s < n; s++ {
+		rg := c.SubRng("c10/stall", s)
+		var t, calls int64
+		stall := int64(2 + rg.Intn(3))
+		active := 0
+		distributed.VerifSetClock(func() int64 {
+			calls++
+			if calls%stall == 0 {
+				t++
+			}
+			return c08Base + 2*t + int64(active)
+		})
+		nodes := []*kit.Replica{kit.NewReplica(1), kit.NewReplica(2)}
+		ref := model.NewLWW()
+		issued := map[string]int{} // topic|stamp -> origin+1
+		crossTie := false
+		lossPct := []int{0, 50, 100}[rg.Intn(3)]
+		trace := []string{}
+		steps := 4 + rg.Intn(12)
+		for i := 0; i < steps; i++ {
+			active = rg.Intn(2)
+			if rg.Intn(4) == 0 {
+				active = 0
+			}
+			topic := []string{"mp/t", "mp/t/u"}[rg.Intn(2)]
+			if rg.Intn(4) > 0 {
+				v := fmt.Sprintf("v%d", i)
+				nodes[active].S.Topics().Set(&packet.Publish{Header: &packet.Header{Retain: true}, Topic: []byte(topic), Payload: []byte(v)})
+				trace = append(trace, fmt.Sprintf("n%d.topics.Set(%s=%s)", active+1, topic, v))
+			} else {
+				nodes[active].S.Topics().Delete([]byte(topic))
+				trace = append(trace, fmt.Sprintf("n%d.topics.Delete(%s)", active+1, topic))
+			}
+			for _, b := range nodes[active].Drain() {
+				ev, err := kit.DecodeEvent(b)
+				if err != nil {
+					continue
+				}
+				for _, m := range ev.RetainedMessages {
+					st := m.LastAdded
+					if m.LastDeleted > st {
+						st = m.LastDeleted
+					}
+					k := fmt.Sprintf("%s|%d", m.Publish.Topic, st)
+					if o, ok := issued[k]; ok && o != active+1 {
+						crossTie = true
+					}
+					issued[k] = active + 1
+				}
+				ref.ApplyEvent(ev)
+				if rg.Intn(100) < lossPct {
+					trace = append(trace, "(broadcast lost)")
+					continue
+				}
+				nodes[1-active].Deliver(b)
+			}
+		}
+		if crossTie {
+			c.Observe("scenarios_without_verdict_timestamp_tie", 1)
+			continue
+		}
+		snapA, snapB := nodes[0].S.Distributor().LocalState(false), nodes[1].S.Distributor().LocalState(false)
+		nodes[1].S.Distributor().MergeRemoteState(snapA, false)
+		nodes[0].S.Distributor().MergeRemoteState(snapB, false)
+		ga, gb := nodes[0].Canon().String(), nodes[1].Canon().String()
+		c.Case(fmt.Sprintf("stalled|%d|%d|%v", stall, lossPct, trace), true)
+		c.Observe("exchanges_stalled_clock", 1)
+		if ga != gb {
+			c.Violation("exchange-diverges", fmt.Sprintf("stalled-clock scenario %d (clock advances every %d calls, %d%% gossip lost): after exchanging snapshots in both directions node 1 lists %s and node 2 lists %s", s, stall, lossPct, ga, gb),
+				map[string]interface{}{"scenario": s, "calls": trace, "node1": ga, "node2": gb})
+		} else if want := refCanon(ref).String(); ref.Ties == 0 && ga != want {
+			c.Violation("exchange-wrong", fmt.Sprintf("stalled-clock scenario %d: after exchanging snapshots both nodes list %s; LWW merge gives %s", s, ga, want),
+				map[string]interface{}{"scenario": s, "calls": trace, "observed": ga, "expected": want})
+		}
+		if s < 1 {
+			c.Sample(map[string]interface{}{"part": "stalled clock", "clock_advances_every_n_calls": stall, "gossip_loss_pct": lossPct, "calls": trace})
+		}
+	}
+	var tick int64
+	distributed.VerifSetClock(func() int64 { tick++; return c08Base + tick })
 }
